@@ -66,6 +66,9 @@ def gen(rng, tier):
     elif r < 0.4:
         fault = {"node": rng.randrange(k), "mode": "error", "kind": rng.choice(["fs.tmpname", "fs.write", "fs.unlink", "fs.open"]),
                  "nth": rng.choice([0, 0, 1])}
+    elif r < 0.48:
+        # a sibling dies in the middle of a write to its temp file (torn write)
+        fault = {"node": rng.randrange(k), "mode": "torn", "kind": "fs.write", "nth": rng.choice([0, 0, 1, 2])}
     # second phase: some of the finished importers go on to update() their own database, again concurrently
     updates = []
     for i in range(k):
@@ -195,7 +198,7 @@ def run(case):
                     req["faults"] = [{"kind": fault["kind"], "nth": fault.get("nth", 0), "mode": fault["mode"]}]
             return req
 
-        planned = (fault["node"],) if fault and fault["mode"] == "crash" else ()
+        planned = (fault["node"],) if fault and fault["mode"] in ("crash", "torn") else ()
         ph1 = lockstep(w, ns, req1, rng, case["policy"], [nd.get("delay", 0) for nd in nodes], journal, planned)
         for i, st in ph1["unexpected_deaths"]:
             V.append(viol("C20.independent", "importer %d died unexpectedly (status %r)" % (i, st), kind="node_died"))
